@@ -17,7 +17,6 @@ open Conv_k3ticket
 
 let n i = n_of_int i
 let choice_go : Obj.t = Obj.repr 0
-let op_any : Obj.t = Obj.repr 0
 
 let split_var (v : string) : string * int =
   match String.index_opt v '#' with
@@ -40,6 +39,7 @@ let var_of (v : string) : evar =
   | "shared.head" -> VHead
   | "shared.sender_count" -> VSenderCnt
   | "shared.receiver_dropped" -> VRdropped
+  | "shared.run_cap" -> VRunCap
   | "shared.sync_recv_waiter_count" -> VSrwc
   | "shared.async_recv_waiter_count" -> VArwc
   | "shared.sync_send_waiter_count" -> VSswc
@@ -62,6 +62,7 @@ let show_var = function
   | VGtail -> "g_tail" | VProgress -> "progress" | VDrained -> "drained" | VRetired -> "consumer_retired"
   | VId j -> Printf.sprintf "id#%d" (int_of_n j) | VState q -> Printf.sprintf "state#%d" (int_of_n q)
   | VHead -> "head" | VSenderCnt -> "sender_count" | VRdropped -> "receiver_dropped" | VClosed -> "closed"
+  | VRunCap -> "run_cap"
   | VSrwc -> "sync_recv_waiter_count" | VArwc -> "async_recv_waiter_count"
   | VSswc -> "sync_send_waiter_count" | VAswc -> "async_send_waiter_count"
   | VLkSrw -> "sync_recv_waiter" | VLkArw -> "async_recv_waiter"
@@ -164,6 +165,19 @@ let parse_res (idbase : int) (tok : string) : int * string list =
       (ti, List.map (conv_res idbase) (List.filter (fun x -> x <> "") (String.split_on_char ',' inner)))
   | None -> failwith ("bad result token " ^ tok)
 
+(* ops: ts | tsb<k> (try_send_batch of k >= 1 items) ; tr | trb<k> (try_recv_batch(k), k >= 1) *)
+let batch_size (o : string) (pre : string) : positive =
+  let lp = String.length pre in
+  let k = int_of_string (String.sub o lp (String.length o - lp)) in
+  if k < 1 then failwith ("empty batch in " ^ o) else pos_of_int k
+let starts_with s pre = String.length s >= String.length pre && String.sub s 0 (String.length pre) = pre
+let pop_of (o : string) : pop =
+  if o = "ts" then TrySend else if starts_with o "tsb" then TrySendBatch (batch_size o "tsb")
+  else failwith ("bad producer op " ^ o)
+let cop_of (o : string) : cop =
+  if o = "tr" then TryRecv else if starts_with o "trb" then TryRecvBatch (batch_size o "trb")
+  else failwith ("bad consumer op " ^ o)
+
 (* thread sections: TH P ops.. TH C ops.. *)
 let rec threads (acc : (string * string list) list) (toks : string list) : (string * string list) list * string list =
   match toks with
@@ -210,9 +224,9 @@ let run (toks : string list) : string =
           (fun i (k, ops) ->
             if k = "P" then (
               tidmap.(i) <- TP (nat_of_int !pi);
-              pprogs.(!pi) <- List.map (function "ts" -> op_any | o -> failwith ("bad producer op " ^ o)) ops;
+              pprogs.(!pi) <- List.map pop_of ops;
               incr pi)
-            else cprog := List.map (function "tr" -> op_any | o -> failwith ("bad consumer op " ^ o)) ops)
+            else cprog := List.map cop_of ops)
           ths;
         let pp0 (i : nat) = let k = int_of_nat i in if k < np then pprogs.(k) else [] in
         let npn = nat_of_int np in
@@ -278,7 +292,7 @@ let ev_of_row (r : row) : string =
     else if e.ek = KSpin then "-.spin.-"
     else Printf.sprintf "%s.%s.%s" (skel_var e.evr) (show_kind e.ek) (show_ord e.eo)
   in
-  let base = init0 (nat_of_int 1) (fun _ -> [ op_any ]) [ op_any ] in
+  let base = init0 (nat_of_int 1) (fun _ -> [ TrySend ]) [ TryRecv ] in
   match r with
   | Call f -> "call." ^ f
   | Lit s -> s
@@ -292,6 +306,12 @@ let ev_of_row (r : row) : string =
       | None -> "DISABLED")
 
 let t0 = n 0
+let r1 = { rt = t0; rv = n 1; rm = n 1; rw = t0 }      (* a run whose current slot gets SET *)
+let r0 = { rt = t0; rv = t0; rm = n 1; rw = t0 }       (* .. gets SKIP *)
+let b0 = { bcold = false; bsent = t0; btotal = n 2 }
+let b1 = { bcold = true; bsent = t0; btotal = n 2 }
+let k1 = KOne XHot
+let dr = DRun (R1, n 2, t0)
 
 let skeleton : (string * row list) list =
   [ ("shared.rs::Shared::credit_ok", [ PRow (PS4 (XHot, t0)) ]);
@@ -302,19 +322,28 @@ let skeleton : (string * row list) list =
      [ Call "window_open"; PRow (PS3 XHot); Call "credit_ok"; Call "write_slot"; Call "write_slot" ]);
     ("shared.rs::Shared::try_send_now_cold",
      [ Call "window_open_cold"; PRow (PS3 XCold); Call "credit_ok_cold"; Call "write_slot"; Call "write_slot" ]);
+    ("shared.rs::Shared::claim_run",
+     [ PRow (PC0 b0); PRow (PC1 b0); PRow (PC2 (b0, t0)); PRow (PC3 (b0, n 1)); PRow (PC4 (b0, t0, n 1)) ]);
+    ("shared.rs::Shared::claim_run_cold",
+     [ PRow (PC0 b1); PRow (PC1 b1); PRow (PC2 (b1, t0)); PRow (PC3 (b1, n 1)); PRow (PC4 (b1, t0, n 1)) ]);
+    ("shared.rs::Shared::resolve_run",
+     [ Call "ensure_resident"; PRow (PW1 (KBatch b0, r1)); Call "ensure_resident"; PRow (PW1 (KBatch b0, r0));
+       Call "notify_receiver" ]);
     ("shared.rs::Shared::ensure_resident",
-     [ PRow (PE1 (XHot, t0, true)); PRow (PE2 (XHot, t0, true, t0)); PRow (PEs (XHot, t0, true, t0));
-       PRow (PE3 (XHot, t0, true, t0)) ]);
+     [ PRow (PE1 (k1, r1)); PRow (PE2 (k1, r1, t0)); PRow (PEs (k1, r1, t0)); PRow (PE3 (k1, r1, t0)) ]);
     ("shared.rs::Shared::write_slot",
-     [ Call "ensure_resident"; PRow (PW1 (XHot, t0, true)); PRow (PW1 (XHot, t0, false)); Call "notify_receiver" ]);
+     [ Call "ensure_resident"; PRow (PW1 (k1, r1)); PRow (PW1 (k1, r0)); Call "notify_receiver" ]);
     ("shared.rs::Shared::notify_receiver",
-     [ PRow (PN1 (XHot, t0, true)); PRow (PN2 (XHot, t0, true)); Lit "sync_recv_waiter.lock.-";
+     [ PRow (PN1 (k1, r1)); PRow (PN2 (k1, r1)); Lit "sync_recv_waiter.lock.-";
        Lit "sync_recv_waiter_count.store.Rel"; Lit "notified.store.Rel"; Lit "-.unpark.-";
-       PRow (PN3 (XHot, t0, true)); Lit "async_recv_waiter.lock.-"; Lit "async_recv_waiter_count.store.Rel"; Call "wake" ]);
+       PRow (PN3 (k1, r1)); Lit "async_recv_waiter.lock.-"; Lit "async_recv_waiter_count.store.Rel"; Call "wake" ]);
     ("shared.rs::Shared::deq_once",
      [ CRow (CLock DTry1); CRow (CD1 DTry1); CRow (CM1 DTry1); CRow (CM2 DTry1); CRow (CD2 DTry1); CRow (CD3 DTry1);
        CRow (CD5 (DTry1, true)); Call "publish_progress"; CRow (CD6 DTry1); CRow (CD5 (DTry1, false));
        Call "publish_progress"; CRow (CM1 DTry1); CRow (CM2 DTry1) ]);
+    ("shared.rs::Shared::deq_run",
+     [ CRow (CLock dr); CRow (CD1 dr); CRow (CD2 dr); CRow (CD3 dr); CRow (CD5 (dr, true)); Call "publish_progress";
+       CRow (CD5 (dr, false)); Call "publish_progress"; CRow (CD6 dr) ]);
     ("shared.rs::Shared::publish_progress",
      [ CRow (CP1 (UbFlush FEmpty)); CRow (CP2 (UbFlush FEmpty)); Call "notify_senders" ]);
     ("shared.rs::Shared::notify_senders",
@@ -323,7 +352,7 @@ let skeleton : (string * row list) list =
        Lit "async_send_waiters.lock.-"; Lit "async_send_waiter_count.store.Rel"; Call "wake" ]);
     ("shared.rs::Shared::flush_progress", [ CRow (CFl FEmpty); Call "publish_progress" ]);
     ("shared.rs::Shared::drain_straggler", [ Call "deq_once" ]);
-    ("shared.rs::Shared::senders_alive", [ CRow CSa ]);
+    ("shared.rs::Shared::senders_alive", [ CRow (CSa None) ]);
     ("shared.rs::Shared::receivers_alive", [ PRow PRd ]);
     ("shared.rs::Shared::drop_sender", [ PRow PDropSub; Call "wake_all_receivers" ]);
     ("shared.rs::Shared::drop_receiver", [ CRow CDropSt; Call "wake_all_senders" ]);
@@ -335,10 +364,18 @@ let skeleton : (string * row list) list =
        Call "wake" ]);
     ("producer.rs::Sender::try_send",
      [ PRow PIdle; Call "receivers_alive"; Call "try_send_now"; Call "try_send_now_cold" ]);
+    ("producer.rs::Sender::try_send_batch", [ PRow PIdle; Call "receivers_alive"; Call "try_send_run_batch" ]);
+    ("producer.rs::try_send_run_batch",
+     [ Call "receivers_alive"; Call "claim_run_cold"; Call "claim_run"; Call "resolve_run" ]);
     ("producer.rs::Sender::close", [ Lit "DROP-P"; Call "drop_sender" ]);
     ("producer.rs::Sender::drop", [ Call "close" ]);
     ("consumer.rs::Receiver::try_recv",
      [ CRow CIdle; Call "deq_once"; Call "senders_alive"; Call "drain_straggler"; Call "flush_progress";
+       Call "flush_progress" ]);
+    ("consumer.rs::Receiver::try_recv_batch", [ Call "try_recv_batch_mut" ]);
+    ("consumer.rs::Receiver::try_recv_batch_mut", [ CRow CIdle; Call "try_recv_run" ]);
+    ("consumer.rs::try_recv_run",
+     [ Call "deq_run"; Call "flush_progress"; Call "flush_progress"; Call "senders_alive"; Call "deq_run";
        Call "flush_progress" ]);
     ("consumer.rs::Receiver::close", [ Lit "DROP-C"; Call "drop_receiver" ]);
     ("consumer.rs::Receiver::drop", [ Call "close" ]) ]
